@@ -22,6 +22,12 @@ pub fn set_yield_hook(hook: Option<YieldHook>) {
     YIELD_HOOK.store(hook.map_or(0, |h| h as usize), Relaxed);
 }
 
+/// Whether a hook is currently installed
+#[inline]
+pub fn hook_installed() -> bool {
+    YIELD_HOOK.load(Relaxed) != 0
+}
+
 /// Marks a point between two critical sections. Calls the installed hook, if
 /// any. The hook may delay or suspend the current thread.
 #[inline]
